@@ -6,4 +6,6 @@ export CARGO_NET_OFFLINE=true
 mkdir -p work evidence violations
 ( cd harness && cargo build --offline --profile verif )
 ( cd harness && RUSTFLAGS="-Zsanitizer=address --cfg hv_asan" cargo +nightly build --offline --profile verif --target x86_64-unknown-linux-gnu --target-dir target-asan )
+# unoptimised build: its children probe the C03 nesting ladder with debug-build stack frames
+( cd harness && cargo build --offline --target-dir target-dev )
 echo "setup ok"
